@@ -238,6 +238,11 @@ func (m *Monitor) AfterMigrate(op Op, pm *preMig, pre, post *Snap, err error) {
 		return
 	}
 	role := fmt.Sprintf("from=%d to=%d mode=%s", from, to, op.Mode)
+	if op.Mode == "srv" && op.A == op.B {
+		// the msg server alone, asked to migrate an address onto itself: no transaction can do this
+		// (ValidateBasic refuses "same account"); the property says nothing about it
+		return
+	}
 
 	// ---- authorisation and refusal rules, as the property states them ----
 	if op.Mode == "tx" && !pm.sigValid {
@@ -264,6 +269,17 @@ func (m *Monitor) AfterMigrate(op Op, pm *preMig, pre, post *Snap, err error) {
 			continue
 		}
 		period := map[int]string{1: "deposit-period", 2: "voting-period"}[p.Status]
+		end := p.DepEnd
+		if p.Status == 2 {
+			end = p.VoteEnd
+		}
+		// the known defect (C14-1) concerns proposals whose period ends AFTER the transaction's block time;
+		// a proposal whose end time is already reached (it is closed by this block's end blocker) is seen
+		// by the scan: accepting then is a different failure
+		sigp := "C14:gov-open:"
+		if end <= pre.Now {
+			sigp = "C14:gov-due:"
+		}
 		for _, a := range []int64{from, to} {
 			who := "source"
 			if a == to {
@@ -271,18 +287,18 @@ func (m *Monitor) AfterMigrate(op Op, pm *preMig, pre, post *Snap, err error) {
 			}
 			if p.Proposer == a {
 				h.tags["gov-open-accepted"] = true
-				m.fail("C14:gov-open:proposer:"+period, fmt.Sprintf("migration accepted while the %s is proposer of open proposal %d (%s, ends after the block time): %s", who, p.ID, period, role))
+				m.fail(sigp+"proposer:"+period, fmt.Sprintf("migration accepted while the %s is proposer of open proposal %d (%s, ends at %d, block time %d): %s", who, p.ID, period, end, pre.Now, role))
 			}
 			for _, d := range pre.Deposits {
 				if d.Pid == p.ID && d.A == a {
 					h.tags["gov-open-accepted"] = true
-					m.fail("C14:gov-open:depositor:"+period, fmt.Sprintf("migration accepted while the %s has a deposit on open proposal %d (%s): %s", who, p.ID, period, role))
+					m.fail(sigp+"depositor:"+period, fmt.Sprintf("migration accepted while the %s has a deposit on open proposal %d (%s, ends at %d, block time %d): %s", who, p.ID, period, end, pre.Now, role))
 				}
 			}
 			for _, v := range pre.Votes {
 				if v[0] == p.ID && v[1] == a {
 					h.tags["gov-open-accepted"] = true
-					m.fail("C14:gov-open:voter:"+period, fmt.Sprintf("migration accepted while the %s has voted on open proposal %d: %s", who, p.ID, role))
+					m.fail(sigp+"voter:"+period, fmt.Sprintf("migration accepted while the %s has voted on open proposal %d (ends at %d, block time %d): %s", who, p.ID, end, pre.Now, role))
 				}
 			}
 		}
